@@ -261,6 +261,72 @@ theorem timestamp_exact_spec (u : TimeUnit) (s : List Char) (v : Int) (h : times
       · rw [if_pos hin] at h; cases h; exact hin
       · rw [if_neg hin] at h; cases u <;> cases h
 
+/-- the model of `DateTime<Utc>::from_str`: the date fields of the string have day number `n` (specification), and the
+instant is the local second `n · 86400 + secsLocal` moved by the zone offset (`Z` / `UTC` = 0, `±hh:mm`) -/
+theorem parseUtcDateTime_fields {s : List Char} {t : Instant} (h : parseUtcDateTime s = .ok t) :
+    ∃ (rest : List Char) (y : Int) (m d : Nat) (n : Int) (secsLocal : Nat) (off : Int),
+      parseDateItems s = some (rest, y, m, d) ∧ IsDayNumber (y, (m : Int), (d : Int)) n ∧
+      (-86400 < off ∧ off < 86400) ∧ t.secs < 86400 ∧
+      secondsSinceEpoch t.days t.secs = secondsSinceEpoch n secsLocal - off := by
+  unfold parseUtcDateTime at h
+  split at h
+  · cases h
+  · rename_i rest y m d hitems
+    split at h
+    · split at h
+      · split at h
+        · cases h
+        · simp only at h
+          split at h
+          · cases h
+          · rename_i zrest off _
+            split at h
+            · split at h
+              · rename_i days secs nanos hr _
+                split at h
+                · cases h
+                · rename_i hoff
+                  split at h
+                  · cases h
+                    unfold resolveDate at hr
+                    split at hr
+                    · rename_i hc
+                      cases hr
+                      refine ⟨_, y, m, d, _, secs, off, hitems, isDayNumber_daysFromCivil y m d hc.2.2, by omega, ?_, ?_⟩
+                      · simp only; omega
+                      · simp only [secondsSinceEpoch]; omega
+                    · cases hr
+                  · cases h
+              · cases h
+            · cases h
+      · cases h
+    · cases h
+
+/-- **timestamp_exact_spec_utc**: the same for a Timestamp column with time zone UTC: the stored value is
+`⌊((n · 86400 + local second of day − offset) · 10⁹ + nanosecond) / unit⌋` with `n` the day number
+(specification) of the date fields of the string -/
+theorem timestamp_exact_spec_utc (u : TimeUnit) (s : List Char) (v : Int) (h : timestampOfString u true s = .ok v) :
+    ∃ (rest : List Char) (y : Int) (m d : Nat) (n : Int) (secsLocal nanos : Nat) (off : Int),
+      parseDateItems s = some (rest, y, m, d) ∧ IsDayNumber (y, (m : Int), (d : Int)) n ∧
+      n = dayNumber (y, (m : Int), (d : Int)) ∧ (-86400 < off ∧ off < 86400) ∧
+      (nanos < 1000000000 →
+        v = ((secondsSinceEpoch n secsLocal - off) * 1000000000 + nanos) / (u.nsPer : Int)) := by
+  unfold timestampOfString at h
+  simp only [if_true] at h
+  cases hp : parseUtcDateTime s with
+  | error e => rw [hp] at h; cases h
+  | ok t =>
+    rw [hp] at h
+    simp only [bind, Except.bind] at h
+    obtain ⟨rest, y, m, d, n, secsLocal, off, hitems, hday, hoff, _, hsec⟩ := parseUtcDateTime_fields hp
+    refine ⟨rest, y, m, d, n, secsLocal, t.nanos, off, hitems, hday, ((isDayNumber_iff_dayNumber _ _).1 hday).2, hoff, ?_⟩
+    intro hn
+    rw [← hsec]
+    exact (timestamp_exact u t v hn h).1
+
+example : timestampOfString .second true "1970-01-01T00:30:00+01:00".toList = .ok (-1800) ∧
+    ((secondsSinceEpoch (dayNumber (1970, 1, 1)) 1800 - 3600) * 1000000000 + 0) / 1000000000 = -1800 := by decide
+
 /-- the reader: a stored timestamp is written as the date with day number `n` and the time of day such that
 `(n · 86400 + second of day) · 10⁹ + nanosecond` is exactly `ts` units -/
 theorem timestampToString_spec (u : TimeUnit) (utc : Bool) (ts : Int) (s : List Char)
